@@ -17,9 +17,9 @@ demo_patched="pass"; (cd "$wt" && go test -vet=off -count=1 ./seeddemo/ >/dev/nu
 rm -rf "$wt/seeddemo"
 suite="green"; (cd "$wt" && go test -vet=off -count=1 ./... 2>&1 | grep -E "^(FAIL|---|panic)" | head -3 | grep -q .) && suite="RED"
 export VERIF_OUT="$wt.out"; mkdir -p "$VERIF_OUT"
-out="$(cd /verif && VERIF_REPO="$wt" ./check "$prop" "$tier" 2>&1)"; rc=$?
+cp="${CHECKPROP:-$prop}"; out="$(cd /verif && VERIF_REPO="$wt" ./check "$cp" "$tier" 2>&1)"; rc=$?
 verdict="MISSED"; [ $rc = 1 ] && verdict="CAUGHT"
-echo "seeded $name: demo on clean tree=$demo_clean, demo with patch=$demo_patched, repo suite with patch=$suite, ./check $prop $tier => $verdict (rc=$rc)"
+echo "seeded $name: demo on clean tree=$demo_clean, demo with patch=$demo_patched, repo suite with patch=$suite, ./check ${CHECKPROP:-$prop} $tier => $verdict (rc=$rc)"
 echo "$out" | grep -E "what:" | head -2
 mkdir -p "/verif/seeded/$name"; cp "$src/patch.diff" "/verif/seeded/$name/patch.diff"; rm -rf "/verif/seeded/$name/demo"; cp -r "$src/demo" "/verif/seeded/$name/demo"
 python3 - "$src/meta.json" "/verif/seeded/$name/meta.json" "$prop" "$demo_clean" "$demo_patched" "$suite" "$verdict" "$tier" "$(git -C /repo log --format=%h -n1)" <<'PY'
